@@ -104,6 +104,13 @@ theorem compile_empty (w : List Nat) :
     refine ⟨by simp [compileDfa, Dfa.accepts, Dfa.run, Dfa.matchType, Dfa.edgesOf, mem_lang_eps], ?_⟩
     simp [compileDfa, Dfa.run, Dfa.matchType, Dfa.edgesOf, mem_lang_eps]
 
+/-- **dead ends** (`check_for_dead_ends` on the compiled automaton): the expression passes exactly when from every
+    reachable match state a valid end can be reached through generatable node types alone -/
+theorem compile_deadEnd (e : Expr) (h : e.wf = true) (generatable : Nat → Bool) :
+    (dfa (nfa e)).hasDeadEnd generatable = false ↔
+      ∀ q, Dfa.Reach (dfa (nfa e)) q → Dfa.GenLive (dfa (nfa e)) generatable q :=
+  hasDeadEnd_iff _ (compile_dfa_wf e h) generatable
+
 /-- the hypothesis is satisfiable and non-trivial: `(a | b c)+ d{2,}` -/
 example : (Expr.seq [.plus (.choice [.name 1, .seq [.name 2, .name 3]]), .range 2 none (.name 4)]).wf = true := by
   decide
